@@ -5,7 +5,7 @@
      1 outcome class differs from the built-in dict on validated keys/values
      2 contents differ from the built-in dict on validated keys/values
      8 return value differs from the built-in dict
-     3 a failing operation changed the contents or notified somebody
+     3 a failing operation changed the contents or notified somebody; a construction notified somebody
    per notification channel (base 0: plain notifier registered first, base 10:
    plain notifier registered after an observe() handler, base 20: the
    "<name>_items" trait event of a TraitDictObject with has_items):
@@ -144,6 +144,11 @@ Section Law.
              | _ => (Raise OtherError, m, RNone)
              end
     | Clear => (Ok, [], RNone)
+    | Ctor a ps =>                                  (* dict(validated items) *)
+        match validate_pairs (items_of a ps) with
+        | Some vps => (Ok, update_all vps [], RNone)
+        | None => (Raise TraitError, m, RNone)
+        end
     end.
 
   (* refinement clauses 1, 2, 8 *)
@@ -169,8 +174,11 @@ Section Law.
        end
     ++ ochan before after (o_oevents ob).
 
+  (* a construction is not a mutation of the dict: it must refine dict(validated items) and notify nobody *)
+  Definition is_ctor (o : op) : bool := match o with Ctor _ _ => true | _ => false end.
+
   Definition law_step (before : amap) (o : op) (ob : obs) : list Z :=
-    ref_codes before o ob ++ ev_codes before ob.
+    ref_codes before o ob ++ (if is_ctor o then chk 3 (silent ob) else ev_codes before ob).
 
   Fixpoint law_hist (i : Z) (before : amap) (h : list (op * obs)) : list Z :=
     match h with
